@@ -33,6 +33,8 @@ Proof.
     + intros x Hx. apply IH. intros v E. apply H. eapply EvFloor; eauto.
     + exact I.
 Qed.
+Lemma allsem_elim {A} (P : A -> Prop) r v : allsem P r -> evals r v -> P v.
+Proof. intros H. now apply allsem_evals. Qed.
 Lemma allsem_mono {A} (P Q : A -> Prop) r : (forall a, P a -> Q a) -> allsem P r -> allsem Q r.
 Proof. intros H. induction r; cbn; auto. Qed.
 Lemma allsem_bind {A B} (Q : B -> Prop) (r : run A) (k : A -> run B) :
@@ -297,13 +299,179 @@ Theorem exp_nonneg t lambda ws e rest x :
   0 < dyR lambda -> Forall word ws ->
   evals (exp_lambda t lambda ws) (e, rest) -> evalX e = Xreal x -> 0 <= x.
 Proof.
-  intros L Hw E. revert x. change (dnn (fst (e, rest))). revert E. apply allsem_evals.
+  intros L Hw E. refine (allsem_elim (fun p => dnn (fst p)) _ _ _ E x).
   unfold exp_lambda. eapply allsem_sbind; [apply exp1_leaves, Hw|]. intros z ws' [Hz _]. sstep.
   apply dnn_mul; [exact Hz|]. apply dpos_dnn, pos_dpos, pos_inv, pos_dyx, L.
 Qed.
 Theorem exp1_nonneg t ws e rest x :
   Forall word ws -> evals (exp1 t ws) (e, rest) -> evalX e = Xreal x -> 0 <= x.
 Proof.
-  intros Hw E. revert x. change (dnn (fst (e, rest))).
-  apply (proj1 (allsem_evals _ _) (exp1_leaves t ws Hw) _ E).
+  intros Hw E. apply (allsem_elim _ _ _ (exp1_leaves t ws Hw) E).
+Qed.
+
+(* ---- Gamma, ChiSquared: all three representations ------------------------------------------------------- *)
+Lemma gamma_is_gamma_e t shape scale :
+  gamma t shape scale = gamma_e t (dy_ltb shape (1, 0)%Z) (dy_eqb shape (1, 0)%Z) (dyx shape) (dyx scale).
+Proof. reflexivity. Qed.
+
+Lemma pos_sub_third shape s : evalX shape = Xreal s -> 1 / 3 < s -> pos (shape -. rat 1 3).
+Proof.
+  intros E H. exists (s - 1 / 3). cbn [evalX xbin]. rewrite E. change (evalX (rat 1 3)) with (evalX (rat 1 3)).
+  rewrite rat_eval by lra. split; [reflexivity|lra].
+Qed.
+
+Lemma gamma_e_leaves t lt1 eq1 shape scale s ws :
+  pos scale -> evalX shape = Xreal s -> Forall word ws ->
+  (eq1 = false -> lt1 = true -> 0 < s) -> (eq1 = false -> lt1 = false -> 1 / 3 < s) ->
+  allsem (fun p => dnn (fst p)) (gamma_e t lt1 eq1 shape scale ws).
+Proof.
+  intros Hsc Hs Hw H2 H3. unfold gamma_e, gamma_large_consts. destruct eq1.
+  - eapply allsem_sbind; [apply exp1_leaves, Hw|]. intros z ws' [Hz _]. sstep.
+    apply dnn_mul; [exact Hz|]. apply dpos_dnn, pos_dpos, pos_inv_inv, Hsc.
+  - destruct lt1.
+    + specialize (H2 eq_refl eq_refl).
+      assert (pos (shape +. one -. rat 1 3)) as Hd.
+      { apply (pos_sub_third _ (s + 1)); [|lra]. cbn [evalX xbin]. now rewrite Hs, one_eval. }
+      destruct ws as [|w ws1]; [exact I|]. sstep.
+      eapply allsem_sbind; [apply gamma_unscaled_leaves|]. intros a ws' Ha. sstep. cbn [fst] in Ha.
+      apply dpos_dnn. repeat apply dpos_mul; auto using pos_dpos, dpos_pow.
+    + specialize (H3 eq_refl eq_refl). pose proof (pos_sub_third _ _ Hs H3) as Hd.
+      eapply allsem_sbind; [apply gamma_unscaled_leaves|]. intros v ws' Hv. sstep. cbn [fst] in Hv.
+      apply dpos_dnn. repeat apply dpos_mul; auto using pos_dpos.
+Qed.
+
+Theorem gamma_nonneg t shape scale ws e rest x :
+  0 < dyR shape -> 0 < dyR scale -> Forall word ws ->
+  evals (gamma t shape scale ws) (e, rest) -> evalX e = Xreal x -> 0 <= x.
+Proof.
+  intros Hk Hs Hw E. refine (allsem_elim (fun p => dnn (fst p)) _ _ _ E x).
+  rewrite gamma_is_gamma_e. apply (gamma_e_leaves _ _ _ _ _ (dyR shape)); auto using pos_dyx, dyx_eval.
+  intros Q L. apply dy_eqb_false in Q. apply dy_ltb_false in L. rewrite dyR_int in *. lra.
+Qed.
+
+Theorem chi_squared_nonneg t k ws e rest x :
+  0 < dyR k -> Forall word ws ->
+  evals (chi_squared t k ws) (e, rest) -> evalX e = Xreal x -> 0 <= x.
+Proof.
+  intros Hk Hw E. refine (allsem_elim (fun p => dnn (fst p)) _ _ _ E x).
+  unfold chi_squared. destruct (dy_eqb k (1, 0)%Z).
+  - unfold sbind. apply allsem_bind_any. intros [z ws']. sstep.
+    intros y H. destruct (mul_real _ _ _ H) as (a & b & Ea & Eb & ->). rewrite Ea in Eb. injection Eb as <-. nra.
+  - assert (evalX (Exact (Dy (fst k) (snd k - 1))) = Xreal (dyR k / 2)) as Hs.
+    { cbn [evalX]. rewrite xdy_real. f_equal. unfold dyR, Z.sub. rewrite powerRZ_add by lra.
+      change (powerRZ 2 (-1)) with (/ (2 * 1)). field. }
+    apply (gamma_e_leaves _ _ _ _ _ (dyR k / 2)); auto.
+    + exists 2. split; [apply num_eval|lra].
+    + intros _ _. lra.
+    + intros Q L. apply dy_eqb_false in Q. apply dy_ltb_false in L. rewrite dyR_int in *. lra.
+Qed.
+
+(* ---- single-draw families ------------------------------------------------------------------------------------ *)
+Lemma one_draw_inv {A} (m : sampler A) (f : Z -> A) ws v rest :
+  (forall w ws', m (w :: ws') = Ret (f w, ws')) -> m [] = Fail 1%Z ->
+  evals (m ws) (v, rest) -> exists w, ws = w :: rest /\ v = f w.
+Proof.
+  intros H1 H0 E. destruct ws as [|w ws'].
+  - rewrite H0 in E. inversion E.
+  - rewrite H1 in E. inversion E; subst. eauto.
+Qed.
+
+(* Weibull > 0 (whenever defined: the draw u = 1 gives 0^(1/k), undefined in the ideal model) *)
+Theorem weibull_pos t scale shape ws e rest x :
+  0 < dyR scale -> evals (weibull t scale shape ws) (e, rest) -> evalX e = Xreal x -> 0 < x.
+Proof.
+  intros Hs E. destruct (one_draw_inv _ (weibull_expr t scale shape) _ _ _ (weibull_run t scale shape) eq_refl E)
+    as [w [-> ->]].
+  revert x. unfold weibull_expr. apply dpos_mul; [apply pos_dpos, pos_dyx, Hs|apply dpos_pow].
+Qed.
+Theorem weibull_nonneg t scale shape ws e rest x :
+  0 < dyR scale -> evals (weibull t scale shape ws) (e, rest) -> evalX e = Xreal x -> 0 <= x.
+Proof. intros Hs E V. apply Rlt_le. eapply weibull_pos; eauto. Qed.
+
+(* Frechet > location *)
+Theorem frechet_gt_loc t loc scale shape ws e rest x :
+  0 < dyR scale -> evals (frechet t loc scale shape ws) (e, rest) -> evalX e = Xreal x -> dyR loc < x.
+Proof.
+  intros Hs E. destruct (one_draw_inv _ (frechet_expr t loc scale shape) _ _ _ (frechet_run t loc scale shape) eq_refl E)
+    as [w [-> ->]].
+  unfold frechet_expr. cbn [evalX xbin]. rewrite dyx_eval.
+  pose proof (dpos_mul (dyx scale) (Bin Pow (Un Neg (Un Ln (u_oc t w))) (Un Neg (Bin Div (num 1) (dyx shape))))
+                (pos_dpos _ (pos_dyx _ Hs)) (dpos_pow _ _)) as P.
+  cbn [evalX xbin] in P. rewrite dyx_eval in P. revert P.
+  generalize (Xmul (Xreal (dyR scale)) (Xpow (evalX (Un Neg (Un Ln (u_oc t w)))) (evalX (Un Neg (Bin Div (num 1) (dyx shape)))))).
+  intros [|r] P; [discriminate|]. cbn [Xadd]. intros H. injection H as <-. specialize (P r eq_refl). lra.
+Qed.
+
+(* Pareto >= scale *)
+Theorem pareto_ge_scale t scale shape ws e rest x :
+  0 < dyR scale -> 0 < dyR shape -> Forall word ws ->
+  evals (pareto t scale shape ws) (e, rest) -> evalX e = Xreal x -> dyR scale <= x.
+Proof.
+  intros Hs Hk Hw E. destruct (one_draw_inv _ (pareto_expr t scale shape) _ _ _ (pareto_run t scale shape) eq_refl E)
+    as [w [-> ->]]. inversion Hw as [|? ? Hb _]; subst.
+  rewrite pareto_value by assumption. intros H. injection H as <-.
+  pose proof (uR_oc_range t w Hb) as [U0 U1]. unfold Q_pareto, Rpower.
+  assert (0 <= -1 / dyR shape * ln (uR_oc t w)) as N.
+  { assert (ln (uR_oc t w) <= 0).
+    { destruct U1 as [U1|U1]; [|rewrite U1, ln_1; lra]. rewrite <- ln_1. apply Rlt_le, ln_increasing; lra. }
+    assert (0 < / dyR shape) by now apply Rinv_0_lt_compat. unfold Rdiv. nra. }
+  assert (1 <= exp (-1 / dyR shape * ln (uR_oc t w))).
+  { rewrite <- exp_0. destruct N as [N|N]; [apply Rlt_le, exp_increasing, N|rewrite <- N; lra]. }
+  nra.
+Qed.
+
+(* Triangular in [min, max] *)
+Lemma Q_tri_range a b c u : a < b -> a <= c <= b -> 0 <= u < 1 -> a <= LawsTriangular.Q_tri a b c u <= b.
+Proof.
+  intros Hab Hc Hu. unfold LawsTriangular.Q_tri.
+  destruct (LawsTriangular.tri_radicands a b c u (Rlt_le _ _ Hab) Hc Hu) as [R1 R2].
+  destruct (Rlt_dec (u * (b - a)) (c - a)) as [L|L].
+  - pose proof (sqrt_pos (u * (b - a) * (c - a))).
+    assert (sqrt (u * (b - a) * (c - a)) <= c - a); [|lra].
+    apply LawsTriangular.sqrt_le_sq; [exact R1|lra|]. nra.
+  - pose proof (sqrt_pos ((b - a - u * (b - a)) * (b - c))).
+    assert (sqrt ((b - a - u * (b - a)) * (b - c)) <= b - c); [|lra].
+    apply LawsTriangular.sqrt_le_sq; [exact R2|lra|]. nra.
+Qed.
+Theorem triangular_in_range t mn mx mode ws e rest x :
+  dyR mn < dyR mx -> dyR mn <= dyR mode <= dyR mx -> Forall word ws ->
+  evals (triangular t mn mx mode ws) (e, rest) -> evalX e = Xreal x -> dyR mn <= x <= dyR mx.
+Proof.
+  intros Hab Hc Hw E V. destruct ws as [|w ws']; [inversion E|]. inversion Hw as [|? ? Hb _]; subst.
+  destruct (LawsTriangular.triangular_value t mn mx mode w ws') as [_ H]. destruct (H _ E) as [_ H2].
+  cbn [fst] in H2. rewrite H2 in V. injection V as <-.
+  apply Q_tri_range; auto. apply uR_std_range, Hb.
+Qed.
+
+(* Pert = min + Beta(v, w) * (max - min) in (min, max) *)
+Definition pert_v (mn mx mode shape : Z * Z) : expr := one +. dyx shape *. (dyx mode -. dyx mn) /. (dyx mx -. dyx mn).
+Definition pert_w (mn mx mode shape : Z * Z) : expr := one +. dyx shape *. (dyx mx -. dyx mode) /. (dyx mx -. dyx mn).
+
+Lemma pert_leaves t mn mx mode shape ws :
+  allsem (fun p => exists b, unit_form (pert_v mn mx mode shape) (pert_w mn mx mode shape) b /\
+                             fst p = b *. (dyx mx -. dyx mn) +. dyx mn)
+         (pert t mn mx mode shape ws).
+Proof.
+  unfold pert. sstep. intros x y _ _. sstep. intros x1 y1 _ _. sstep.
+  eapply allsem_sbind; [apply beta_e_leaves|]. intros b ws' U. sstep. exists b. split; [exact U|reflexivity].
+Qed.
+
+Theorem pert_in_range t mn mx mode shape ws e rest x :
+  dyR mn < dyR mx -> dyR mn <= dyR mode <= dyR mx -> 0 <= dyR shape ->
+  evals (pert t mn mx mode shape ws) (e, rest) -> evalX e = Xreal x -> dyR mn <= x <= dyR mx.
+Proof.
+  intros Hab Hc Hs E V.
+  destruct (allsem_elim _ _ _ (pert_leaves t mn mx mode shape ws) E) as [b [U Hb]]. cbn [fst] in Hb. subst e.
+  assert (forall p q, 0 <= q -> 0 < 1 + dyR shape * q / (dyR mx - dyR mn)) as P.
+  { intros p q Hq. assert (0 <= dyR shape * q / (dyR mx - dyR mn)); [|lra].
+    apply div_ge_0; [lra|]. apply Rmult_le_pos; assumption. }
+  assert (pos (pert_v mn mx mode shape)) as Pv.
+  { exists (1 + dyR shape * (dyR mode - dyR mn) / (dyR mx - dyR mn)). unfold pert_v. cbn [evalX xbin].
+    rewrite !dyx_eval, one_eval. cbn [Xsub Xmul]. rewrite Xdiv_nz by lra. split; [reflexivity|apply (P 0); lra]. }
+  assert (pos (pert_w mn mx mode shape)) as Pw.
+  { exists (1 + dyR shape * (dyR mx - dyR mode) / (dyR mx - dyR mn)). unfold pert_w. cbn [evalX xbin].
+    rewrite !dyx_eval, one_eval. cbn [Xsub Xmul]. rewrite Xdiv_nz by lra. split; [reflexivity|apply (P 0); lra]. }
+  cbn [evalX xbin] in V. rewrite !dyx_eval in V. destruct (evalX b) as [|rb] eqn:Eb; [discriminate|].
+  pose proof (unit_form_range _ _ _ _ Pv Pw U Eb) as B.
+  cbn [Xsub Xmul Xadd] in V. injection V as <-. nra.
 Qed.
